@@ -143,6 +143,11 @@ def gen_scenario(rng, **opts):
                     losers = [r for r in u["runners"] if r["status"] == "LOSER"]
                     if losers:
                         losers[0]["status"] = "PLACED"
+        if m["type"] == "OTHER":
+            # "OTHER" stands for a type without place terms; a third of those become OTHER_PLACE, which has them (the non-runner
+            # formula of place markets applies); drawn from a generator of its own so that recorded seeds keep their meaning
+            if random.Random("otherplace|%r|%r" % (m["id"], m["updates"][0]["runners"][0])).random() < 0.34:
+                m["type"] = "OTHER_PLACE"
         markets.append(m)
         if not opts.get("event_processing"):
             t0 = tend
